@@ -694,6 +694,7 @@ func checkC09Payload(c *Ctx) {
 	scannersBounded(c, c.P.LibFns, "R-scanner-bounded")
 	c09FrameAtomic(c, "R-frame-atomic")
 	timerCallbacksDoNotWrite(c, "R-timer-writes")
+	c09PublishAfterHeader(c, "R-publish-after-header")
 	// (a) fmt.Fprintf(w, "...data: %s...", payload): payload must come from json.Marshal
 	// (b) functions that write a payload followed by "\n" to an io.Writer param (stdio line writer): payload from json.Marshal
 	for _, fn := range c.P.LibFns {
